@@ -73,7 +73,15 @@ def build(spec: Dict[str, Any]):
     ns: Dict[str, Any] = {'ViewMixin': pjrpc.server.ViewMixin, 'Optional': Optional, 'List': List, **ns_defaults}
     reg = pjrpc.server.MethodRegistry()
     ctx_name = next((p['name'] for p in params if p.get('ctx')), None)
-    if view:
+    if view and m.get('static_inherited'):
+        # the public method is a @staticmethod the registered view INHERITS from a base view
+        sparts = [x for x in parts if x != 'self']
+        src = (f"class BaseView(ViewMixin):\n    def __init__(self, context=None):\n        super().__init__()\n    @staticmethod\n    def meth({', '.join(sparts)}):\n        {body}\n"
+               f"class View(BaseView):\n    pass\n")
+        exec(src, ns)
+        cls = ns['View']
+        reg.view(cls, context='context' if m['view_ctx'] else None)
+    elif view:
         src = f"class View(ViewMixin):\n    def __init__(self, context=None):\n        super().__init__()\n    def meth({', '.join(parts)}):\n        {body}\n"
         exec(src, ns)
         cls = ns['View']
@@ -135,6 +143,8 @@ def variants(params: List[Dict[str, Any]]) -> Iterator[Dict[str, Any]]:
             yield {'params': rn[:n_before_ko] + [{'name': 'ctx', 'kind': 'KO', 'ctx': True}] + rn[n_before_ko:], 'flavour': 'func', 'excluded': excluded, 'view_ctx': False}
         yield {'params': ps, 'flavour': 'view', 'excluded': excluded, 'view_ctx': True}
         yield {'params': ps, 'flavour': 'view', 'excluded': excluded, 'view_ctx': False}
+        if not excluded:
+            yield {'params': ps, 'flavour': 'view', 'excluded': excluded, 'view_ctx': False, 'static_inherited': True}
 
 
 def find_ref(doc: Dict[str, Any], node: Any) -> Any:
@@ -156,7 +166,7 @@ class C17(Check):
     rule = (
         "cases: (a) enumerated: every signature of <= 2 (quick) / <= 3 (thorough) parameters over positional-or-keyword / keyword-only x with / "
         "without defaults (JSON values, non-JSON-serialisable sentinel objects and the library's own UNSET), x context parameter designations (none, by name at each positional position, keyword-only, view constructor; also next to a client parameter whose name is contained in the context name) x "
-        "exclusion predicate off / by name prefix / by missing annotation (an extra defaulted 'dep_' parameter, excluded in the extractor and in the validator) x function / view "
+        "exclusion predicate off / by name prefix / by missing annotation (an extra defaulted 'dep_' parameter, excluded in the extractor and in the validator) x function / view (own methods; a static method inherited from a base view) "
         "method, x the same function registered a second time without context designation (probed in both orders), x a leading positional-only parameter with a default (no parameter of a params object: never documented, never settable by name); (b) Hypothesis: signatures of up to 4 parameters with annotations. For each: the OpenAPI request schema and the OpenRPC params "
         "list are generated with PydanticSchemaExtractor, and ALL params objects over subsets of (documented names + one undocumented name + "
         "the context name + the excluded name), with values 1 and null, are dispatched. Oracle: documented names == the signature's client parameters, documented "
